@@ -1,14 +1,14 @@
 SPECIFICATION Spec
 CONSTANTS
-  DeepKinds <- MC_Deep
-  ShallowKinds <- MC_Shallow
+  DeepKinds <- MC_LargeDeep
+  ShallowKinds <- MC_LargeShallow
   StaticKinds <- MC_Static
-  Depth = 4
-  ShallowDepth = 3
-  Media = {"mem"}
-  Sizes = {"small"}
+  Depth = 2
+  ShallowDepth = 2
+  Media = {"mem", "reader", "file", "alias", "over"}
+  Sizes = {"small", "large"}
   BigSaves = 1
-  Variant = "drop_hist"
+  Variant = "size_cap"
 INVARIANT TypeOK
 INVARIANT Stutter
 INVARIANT Idempotent
